@@ -879,8 +879,8 @@ def directed_programs() -> list[tuple[list[tuple], dict[str, Any]]]:
         progs.append([("capture", "cp", [("out", e)]), ("out", ("filter", P("cp"), "size", [], [])),
                       ("for", "i", P("l"), None, [("out", ("tern", P("i"), cond, None))], None)])
     # (b)
-    arrs = [P("an"), P("an2"), P("af"), P("a0"), P("ae"), P("ans"), P("l")]
-    needles = [M, P("x1"), P("z"), L(None), L(False), L(0), P("d", "nope")]
+    arrs = [P("an"), P("an2"), P("af"), P("a0"), P("ae"), P("ans"), P("l"), P("d")]     # d: a mapping (hashes the needle)
+    needles = [M, P("x1"), P("z"), L(None), L(False), L(0), P("d", "nope"), P("l")]    # l: an unhashable needle
     for arr in arrs:
         for nd in needles:
             progs.append([("if", ("cmp", "contains", arr, nd), T_, F_), ("if", ("cmp", "in", nd, arr), T_, F_),
@@ -1094,7 +1094,7 @@ def kernel_cases(r: Any, thorough: bool) -> list[dict[str, Any]]:
             def call(left: Any, *args: Any, **kw: Any) -> Any:
                 try:
                     return func(left, *args, **kw)
-                except TypeError as err:
+                except (TypeError, ValueError, ArithmeticError) as err:  # as Filter.evaluate does
                     raise LiquidTypeError(str(err), token=None) from err
             for left in pool:
                 for n in arity[f]:
